@@ -94,7 +94,10 @@ def gen(r, cls=None, surrogates=False):
     elif cls == 'trailing':
         s = r.choice(WORDS) + r.choice([' ', '  ', '\n', '\n\n', ' \n', '\n ', '\t', NEL, LS, '\r', '\r\n', '\n\r'])
     elif cls == 'leading_break':
-        s = r.choice(['\n', '\n\n', ' \n', '\r\n', NEL, '\n ']) + ' '.join(r.choice(WORDS) for _ in range(r.randint(1, 5)))
+        s = r.choice(['\n', '\n\n', ' \n', '\r\n', NEL, '\n ']) + r.choice(['', '', ' ', '  ', '    ']) + ' '.join(r.choice(WORDS) for _ in range(r.randint(1, 5)))
+        if r.random() < 0.5:
+            # a later line that is indented less than the first one (the block styles then need an explicit indentation indicator)
+            s += r.choice(['\n', '\n\n']) + r.choice(['', '', ' ']) + ' '.join(r.choice(WORDS) for _ in range(r.randint(1, 4))) + r.choice(['', '\n'])
     elif cls == 'pyspace':
         lines = []
         for _ in range(r.randint(1, 5)):
